@@ -908,18 +908,17 @@ def gen_history(rng, length, solver="glpk", ctx=False, avoid=False, odd_p=0.15, 
          "AddRxn": 9, "RemoveRxn": 10, "SetBounds": 7, "SetObj": 6, "SetDir": 3, "SwitchSolver": 12, "Merge": 9}
     W.update(weights or {})
     names = [n for n, w in W.items() for _ in range(w)]
-    guard = 0
-    while len(ops) < length and guard < length * 25 and not state["stop"]:
-        guard += 1
+    def gen_step():
+        nonlocal blocks
         if ctx:
             x = rng.random()
             if x < 0.16 and depth < 2 and blocks < 3:
                 do(["Enter"])
                 blocks += 1
-                continue
+                return False
             if x < 0.28 and depth > 0 and ops[-1][0] != "Enter":
                 do(["Exit"])
-                continue
+                return False
         n = rng.choice(names)
         odd = rng.random() < odd_p
         o = None
@@ -1005,13 +1004,27 @@ def gen_history(rng, length, solver="glpk", ctx=False, avoid=False, odd_p=0.15, 
             rm = gen_right(rng, im)
             o = ["Merge", rm, rng.random() < 0.45, rng.choice([0, 0, 1, 2, 2]), rng.random() < 0.75]
         if o is None:
-            continue
+            return False
         do(o)
-    while depth > 0 and not state["stop"]:
-        if not do(["Exit"]):
+
+        return False
+
+    guard = 0
+    while len(ops) < length and guard < length * 25 and not state["stop"]:
+        guard += 1
+        try:
+            stop = gen_step()
+        except Exception:  # noqa  -- the implementation under test left the solver unreadable: the history ends here
+            break
+        if stop:
+            break
+    while depth > 0:
+        try:
             im.apply(["Exit"])
-            ops.append(["Exit"])
-            depth -= 1
+        except Exception:  # noqa
+            pass
+        ops.append(["Exit"])
+        depth -= 1
     return {"solver": solver, "ops": ops}
 
 
